@@ -465,15 +465,25 @@ fn run<H: HashChain>(op: &str, a: &Args) -> Option<String> {
                     Err(())
                 }
             };
-            let res = hbs_lms::sign_mut::<H>(&mut msg, &sk, &mut cb, None);
+            // optional aux=<hex>: the answer then carries the buffer as it was left (used part / rest)
+            let mut aux = a.opt_bytes("aux")?;
+            let (res, used) = match aux.as_mut() {
+                None => (hbs_lms::sign_mut::<H>(&mut msg, &sk, &mut cb, None), 0),
+                Some(buf) => {
+                    let mut slice: &mut [u8] = &mut buf[..];
+                    let r = hbs_lms::sign_mut::<H>(&mut msg, &sk, &mut cb, Some(&mut slice));
+                    (r, slice.len())
+                }
+            };
             let cbs = if calls.is_empty() {
                 "none".to_string()
             } else {
                 calls.iter().map(|c| hex(c)).collect::<Vec<_>>().join(",")
             };
+            let sfx = if aux.is_some() { aux_suffix(&aux, used) } else { String::new() };
             match res {
-                Ok(sig) => format!("ok sig={} cb={} msg={}", hex(sig.as_ref()), cbs, hex(&msg)),
-                Err(_) => format!("err cb={} msg={}", cbs, hex(&msg)),
+                Ok(sig) => format!("ok sig={} cb={} msg={}{}", hex(sig.as_ref()), cbs, hex(&msg), sfx),
+                Err(_) => format!("err cb={} msg={}{}", cbs, hex(&msg), sfx),
             }
         }
         _ => return None,
